@@ -1,6 +1,16 @@
 from __future__ import division, print_function
+import os
 import random
 import numpy as np
+
+# verification hooks (off unless BCTPY_VERIF=1): observers only, never change results
+_VERIF_ON = os.environ.get('BCTPY_VERIF') == '1'
+_verif_sink = None
+
+
+def _verif_event(kind, **payload):
+    if _verif_sink is not None:
+        _verif_sink(kind, payload)
 
 
 class BCTParamError(RuntimeError):
